@@ -1389,3 +1389,106 @@ package pongo2
 //@   at (*bytes.Buffer).WriteRune requires {C17} @only-iri-characters-are-copied arg1 == r && lastresult("strings.ContainsRune")
 //@   at url.QueryEscape requires {C17} @other-characters-one-by-one !lastresult("strings.ContainsRune")
 //@   at strings.ContainsRune requires {C17} @membership-in-the-iri-set arg0 == filterIRIChars && arg1 == r
+
+// ---- parser progress (C01): termination of the parser's loops ----
+// The token list of a parser is fixed at construction; every primitive moves the position forward only, a
+// successful match consumes exactly one token that exists, and every successful sub-parse consumes at least one
+// token. The mutually recursive parse functions use each other's contract as induction hypothesis.
+//@ writers {C01} F|Parser|tokens
+//@ func (*Parser).MatchType
+//@   ensures {C01} @a-match-consumes-one-existing-token (r0 != nil ==> (0 <= old(p.idx) && old(p.idx) < len(p.tokens) && p.idx == old(p.idx) + 1)) && (r0 == nil ==> p.idx == old(p.idx))
+//@ func (*Parser).Match
+//@   ensures {C01} @a-match-consumes-one-existing-token (r0 != nil ==> (0 <= old(p.idx) && old(p.idx) < len(p.tokens) && p.idx == old(p.idx) + 1)) && (r0 == nil ==> p.idx == old(p.idx))
+//@ func (*Parser).MatchOne
+//@   ensures {C01} @a-match-consumes-one-existing-token (r0 != nil ==> (0 <= old(p.idx) && old(p.idx) < len(p.tokens) && p.idx == old(p.idx) + 1)) && (r0 == nil ==> p.idx == old(p.idx))
+//@ func (*Parser).parseDocElement
+//@   ensures {C01} @success-consumes-tokens r1 == nil ==> (p.idx > old(p.idx) && p.idx <= len(p.tokens))
+//@ func (*Parser).parseVariableElement
+//@   ensures {C02} @a-variable-node r1 == nil ==> typeis(r0, "*nodeVariable")
+//@   requires {C01} @at-an-existing-token 0 <= p.idx && p.idx < len(p.tokens)
+//@   ensures {C01} @success-consumes-tokens r1 == nil ==> (p.idx > old(p.idx) && p.idx <= len(p.tokens))
+//@ func (*Parser).parseTagElement
+//@   requires {C01} @at-an-existing-token 0 <= p.idx && p.idx < len(p.tokens)
+//@   ensures {C01} @success-consumes-tokens r1 == nil ==> (p.idx > old(p.idx) && p.idx <= len(p.tokens))
+//@ func (*Parser).ParseExpression
+//@   ensures {C01} @success-consumes-tokens r1 == nil ==> (p.idx > old(p.idx) && p.idx <= len(p.tokens))
+//@ func (*Parser).parseRelationalExpression
+//@   ensures {C01} @success-consumes-tokens r1 == nil ==> (p.idx > old(p.idx) && p.idx <= len(p.tokens))
+//@ func (*Parser).parseSimpleExpression
+//@   ensures {C01} @success-consumes-tokens r1 == nil ==> (p.idx > old(p.idx) && p.idx <= len(p.tokens))
+//@   invariant 0 {C01} @forward-only p.idx > old(p.idx) && p.idx <= len(p.tokens)
+//@   decreases 0 {C01} @every-operator-consumes-tokens len(p.tokens) - p.idx
+//@ func (*Parser).parseTerm
+//@   ensures {C01} @success-consumes-tokens r1 == nil ==> (p.idx > old(p.idx) && p.idx <= len(p.tokens))
+//@   invariant 0 {C01} @forward-only p.idx > old(p.idx) && p.idx <= len(p.tokens)
+//@   decreases 0 {C01} @every-operator-consumes-tokens len(p.tokens) - p.idx
+//@ func (*Parser).parsePower
+//@   ensures {C01} @success-consumes-tokens r1 == nil ==> (p.idx > old(p.idx) && p.idx <= len(p.tokens))
+//@ func (*Parser).parseFactor
+//@   ensures {C01} @success-consumes-tokens r1 == nil ==> (p.idx > old(p.idx) && p.idx <= len(p.tokens))
+//@ func (*Parser).parseVariableOrLiteralWithFilter
+//@   ensures {C01} @success-consumes-tokens r1 == nil ==> (p.idx > old(p.idx) && p.idx <= len(p.tokens))
+//@   invariant 0 {C01} @forward-only p.idx > old(p.idx) && p.idx <= len(p.tokens)
+//@   decreases 0 {C01} @every-filter-consumes-tokens len(p.tokens) - p.idx
+//@ func (*Parser).parseVariableOrLiteral
+//@   ensures {C01} @success-consumes-tokens r1 == nil ==> (p.idx > old(p.idx) && p.idx <= len(p.tokens))
+//@   invariant 0 {C01} @forward-only p.idx > old(p.idx) && p.idx <= len(p.tokens)
+//@   decreases 0 {C01} @every-part-consumes-tokens len(p.tokens) - p.idx
+//@   invariant 0 {C01} @a-variable-has-a-first-part len(resolver.parts) >= 1
+//@   invariant 1 {C01} @forward-only p.idx > atiter(0, p.idx) && p.idx <= len(p.tokens)
+//@   decreases 1 {C01} @every-argument-consumes-tokens len(p.tokens) - p.idx
+//@ func (*Parser).parseArray
+//@   requires {C01} @at-an-existing-token 0 <= p.idx && p.idx < len(p.tokens)
+//@   ensures {C01} @success-consumes-tokens r1 == nil ==> (p.idx > old(p.idx) && p.idx <= len(p.tokens))
+//@   invariant 0 {C01} @forward-only p.idx > old(p.idx) && p.idx <= len(p.tokens)
+//@   decreases 0 {C01} @every-item-consumes-tokens len(p.tokens) - p.idx
+//@ func (*Parser).parseFilter
+//@   ensures {C01} @success-consumes-tokens r1 == nil ==> (p.idx > old(p.idx) && p.idx <= len(p.tokens))
+//@ func (*Parser).parseDocument
+//@   decreases 0 {C01} @every-element-consumes-tokens len(p.tokens) - p.idx
+//@ func (*Parser).parseTagElement
+//@   invariant 0 {C01} @forward-only p.idx > old(p.idx) && p.idx <= len(p.tokens)
+//@   decreases 0 {C01} @every-argument-token-is-consumed len(p.tokens) - p.idx
+// a tag's parser gets the document parser and a parser of its own over the tag's arguments: two different objects.
+// It may consume document tokens (its body, up to an end tag) but never moves the document position backwards.
+// Checked on every tag parser of the package (refines/TagParser); ASSUMED for tag parsers registered by applications.
+//@ functype TagParser(doc, start, arguments) (r0, r1)
+//@   requires {C01} @two-parsers doc != arguments && doc != nil && arguments != nil
+//@   requires {C01} @document-position-in-range 0 <= doc.idx && doc.idx <= len(doc.tokens)
+//@   ensures {C01} @document-position-moves-forward-only r1 == nil ==> (doc.idx >= old(doc.idx) && doc.idx <= len(doc.tokens))
+//@ func (*Parser).WrapUntilTag
+//@   requires {C01} @position-in-range 0 <= p.idx && p.idx <= len(p.tokens)
+//@   ensures {C01} @success-consumes-the-end-tag r2 == nil ==> (p.idx > old(p.idx) && p.idx <= len(p.tokens) && r0 != nil && r1 != nil && fresh(r1))
+//@   invariant 0 {C01} @forward-only p.idx >= old(p.idx) && p.idx <= len(p.tokens)
+//@   decreases 0 {C01} @every-wrapped-element-consumes-tokens len(p.tokens) - p.idx
+//@   invariant 2 {C01} @forward-only p.idx > old(p.idx) && p.idx <= len(p.tokens)
+//@   decreases 2 {C01} @every-argument-token-is-consumed len(p.tokens) - p.idx
+//@ func (*Parser).SkipUntilTag
+//@   requires {C01} @position-in-range 0 <= p.idx && p.idx <= len(p.tokens)
+//@   ensures {C01} @success-consumes-the-end-tag r0 == nil ==> (p.idx > old(p.idx) && p.idx <= len(p.tokens))
+//@   invariant 0 {C01} @forward-only p.idx >= old(p.idx) && p.idx <= len(p.tokens)
+//@   decreases 0 {C01} @every-skipped-token-is-consumed len(p.tokens) - p.idx
+//@   invariant 2 {C01} @forward-only p.idx > old(p.idx) && p.idx <= len(p.tokens)
+//@   decreases 2 {C01} @every-argument-token-is-consumed len(p.tokens) - p.idx
+// the argument loops of the tag parsers: every round consumes at least one token of the tag's arguments
+//@ func tagCycleParser
+//@   decreases 0 {C01} @every-round-consumes-argument-tokens len(arguments.tokens) - arguments.idx
+//@ func tagFilterParser
+//@   decreases 0 {C01} @every-round-consumes-argument-tokens len(arguments.tokens) - arguments.idx
+//@ func tagFirstofParser
+//@   decreases 0 {C01} @every-round-consumes-argument-tokens len(arguments.tokens) - arguments.idx
+//@ func tagIfchangedParser
+//@   decreases 0 {C01} @every-round-consumes-argument-tokens len(arguments.tokens) - arguments.idx
+//@ func tagImportParser
+//@   decreases 0 {C01} @every-round-consumes-argument-tokens len(arguments.tokens) - arguments.idx
+//@ func tagIncludeParser
+//@   decreases 0 {C01} @every-round-consumes-argument-tokens len(arguments.tokens) - arguments.idx
+//@ func tagMacroParser
+//@   decreases 0 {C01} @every-round-consumes-argument-tokens len(arguments.tokens) - arguments.idx
+//@ func tagWithParser
+//@   decreases 0 {C01} @counts-up-to-the-number-of-arguments len(arguments.tokens) - i
+//@   decreases 1 {C01} @every-round-consumes-argument-tokens len(arguments.tokens) - arguments.idx
+// if/elif/else: every round wraps one branch and consumes its end tag from the document
+//@ func tagIfParser
+//@   invariant 0 {C01} @document-position-moves-forward-only doc.idx >= old(doc.idx) && 0 <= doc.idx && doc.idx <= len(doc.tokens)
+//@   decreases 0 {C01} @every-branch-consumes-document-tokens len(doc.tokens) - doc.idx
